@@ -72,6 +72,14 @@ def prepare(tag, scenario):
     if scenario.get("slow_period_ms"):
         cfg.append('slow-timeout = { period = "%dms", terminate-after = 1, grace-period = "0s" }'
                    % scenario["slow_period_ms"])
+    prof = scenario.get("profile_name", "default")
+    if prof != "default":
+        # the run selects `prof` (a custom profile, or the built-in default-miri): the profile-level policy is
+        # the selected profile's own; the default profile carries a different one that must not be used
+        if scenario.get("profile_retries") is not None:
+            cfg.append("retries = " + policy_toml(dict(kind="fixed", count=scenario["profile_retries"]["count"] + 2,
+                                                       delay=0, jitter=False)))
+        cfg.append(f"[profile.{prof}]")
     if scenario.get("profile_retries") is not None:
         cfg.append("retries = " + policy_toml(scenario["profile_retries"]))
     for b, tests in scenario["bins"].items():
@@ -85,11 +93,11 @@ def prepare(tag, scenario):
             for k, beh in spec.get("attempts", {}).items():
                 open(f"{path}.{t}.{k}", "w").write(behaviour_script(beh))
             if spec.get("policy") is not None:
-                cfg += ["", "[[profile.default.overrides]]", f"filter = 'test(={t})'",
+                cfg += ["", f"[[profile.{prof}.overrides]]", f"filter = 'test(={t})'",
                         "retries = " + policy_toml(spec["policy"])]
     open(os.path.join(d, ".config", "nextest.toml"), "w").write("\n".join(cfg) + "\n")
     f = scenario.get("force")
-    return dict(op="run", dir=d, bins=list(scenario["bins"]), threads=scenario.get("threads", 4),
+    return dict(op="run", dir=d, bins=list(scenario["bins"]), threads=scenario.get("threads", 4), profile=prof,
                 chmod_after_list=scenario.get("chmod_after_list", []),
                 force_retries=None if f is None else dict(
                     kind=f["kind"], count=f["count"], delay=str(f["delay"]), jitter=f["jitter"],
